@@ -18,47 +18,47 @@ Local Arguments String.eqb : simpl never.
 
 (* what may follow an operand: the end of the operands, or a comma and an operand that does not
    start with a word spelled like a shift operator *)
-Inductive safe : list tok -> Prop :=
-| safe_nil : safe []
-| safe_c : forall raw, safe [TC raw]
-| safe_w : forall w r, has_shift_prefix w = false -> safe (TP "," :: TW w :: r)
-| safe_p : forall c r, safe (TP "," :: TP c :: r).
+Inductive safe (fx : fixes) : list tok -> Prop :=
+| safe_nil : safe fx []
+| safe_c : forall raw, safe fx [TC raw]
+| safe_w : forall w r, has_shift_prefix fx w = false -> safe fx (TP "," :: TW w :: r)
+| safe_p : forall c r, safe fx (TP "," :: TP c :: r).
 Definition ends (rest : list tok) : Prop := rest = [] \/ exists raw, rest = [TC raw].
-Lemma ends_safe : forall rest, ends rest -> safe rest.
-Proof. intros rest [->|[raw ->]]; constructor. Qed.
+Lemma ends_safe : forall fx rest, ends rest -> safe fx rest.
+Proof. intros fx rest [->|[raw ->]]; constructor. Qed.
 
-Lemma hsp_false : forall w, has_shift_prefix w = false ->
-  shift_split w = None /\ String.eqb (lower w) "mul" = false.
+Lemma hsp_false : forall fx w, has_shift_prefix fx w = false ->
+  shift_split fx w = None /\ String.eqb (lower w) "mul" = false.
 Proof.
-  intros w H. unfold has_shift_prefix in H. apply orb_false_iff in H. destruct H as [H1 H2]. split; auto.
-  destruct (shift_split w); [discriminate|reflexivity].
+  intros fx w H. unfold has_shift_prefix in H. apply orb_false_iff in H. destruct H as [H1 H2]. split; auto.
+  destruct (shift_split fx w); [discriminate|reflexivity].
 Qed.
 
-Lemma p_shift_safe : forall rest, safe rest -> p_shift rest = ShNone.
+Lemma p_shift_safe : forall fx rest, safe fx rest -> p_shift fx rest = ShNone.
 Proof.
-  intros rest H. inversion H; subst; try reflexivity.
-  destruct (hsp_false w H0) as [E1 E2]. unfold p_shift. rewrite E2, E1. reflexivity.
+  intros fx rest H. inversion H; subst; try reflexivity.
+  destruct (hsp_false fx w H0) as [E1 E2]. unfold p_shift. rewrite E2, E1. reflexivity.
 Qed.
-Lemma arith_safe : forall rest, safe rest -> arith_follows rest = false.
+Lemma arith_safe : forall fx rest, safe fx rest -> arith_follows fx rest = false.
 Proof.
-  intros rest H. inversion H; subst; try reflexivity.
-  destruct (hsp_false w H0) as [E1 E2]. unfold arith_follows. rewrite E2, E1. reflexivity.
+  intros fx rest H. inversion H; subst; try reflexivity.
+  destruct (hsp_false fx w H0) as [E1 E2]. unfold arith_follows. rewrite E2, E1. reflexivity.
 Qed.
-Lemma fpf_safe : forall rest, safe rest -> float_piece_follows rest = false.
-Proof. intros rest H. inversion H; subst; reflexivity. Qed.
-Lemma guard_safe : forall k r rest, safe rest -> guard_piece k r rest = false.
-Proof. intros k r rest H. inversion H; subst; reflexivity. Qed.
-Lemma p_reg_ext_safe : forall d k rest, safe rest -> p_reg_ext d k rest = Some (d, rest).
+Lemma fpf_safe : forall fx rest, safe fx rest -> float_piece_follows rest = false.
+Proof. intros fx rest H. inversion H; subst; reflexivity. Qed.
+Lemma guard_safe : forall fx k r rest, safe fx rest -> guard_piece k r rest = false.
+Proof. intros fx k r rest H. inversion H; subst; reflexivity. Qed.
+Lemma p_reg_ext_safe : forall fx d k rest, safe fx rest -> p_reg_ext d k rest = Some (d, rest).
 Proof.
-  intros d k rest H. unfold p_reg_ext. rewrite (guard_safe k d rest H).
+  intros fx d k rest H. unfold p_reg_ext. rewrite (guard_safe fx k d rest H).
   destruct k; inversion H; subst; try reflexivity; destruct (r_shape d); reflexivity.
 Qed.
 
 (* ---------------------------------------------------------------- registers *)
-Lemma op_regword : forall w d k first rest,
-  classify w = CReg d k -> safe rest -> p_operand first (TW w :: rest) = OpGot [OReg d] rest.
+Lemma op_regword : forall fx w d k first rest,
+  classify w = CReg d k -> safe fx rest -> p_operand fx first (TW w :: rest) = OpGot [OReg d] rest.
 Proof.
-  intros w d k first rest Hc Hs. unfold p_operand. rewrite Hc, (p_reg_ext_safe d k rest Hs), (p_shift_safe rest Hs).
+  intros fx w d k first rest Hc Hs. unfold p_operand. rewrite Hc, (p_reg_ext_safe fx d k rest Hs), (p_shift_safe fx rest Hs).
   reflexivity.
 Qed.
 
@@ -68,15 +68,15 @@ Proof. intros c; destruct c as [[|] [|] [|] [|] [|] [|] [|] [|]]; vm_compute; in
 Lemma den_wreg_fields : forall r, r_index (den_wreg r) = None /\ r_pred (den_wreg r) = None.
 Proof. intros r. split; reflexivity. Qed.
 
-Lemma op_wregop : forall o first rest, wregop_okb o = true -> safe rest ->
-  p_operand first (toks_wregop o ++ rest)%list = OpGot [OReg (den_wregop o)] rest.
+Lemma op_wregop : forall fx o first rest, wregop_okb o = true -> safe fx rest ->
+  p_operand fx first (toks_wregop o ++ rest)%list = OpGot [OReg (den_wregop o)] rest.
 Proof.
-  intros o first rest Hok Hs. destruct o as [r|r i|r m|w|w]; simpl in Hok; simpl app.
-  - apply (op_regword _ _ _ _ _ (classify_reg r Hok) Hs).
+  intros fx o first rest Hok Hs. destruct o as [r|r i|r m|w|w]; simpl in Hok; simpl app.
+  - apply (op_regword fx _ _ _ _ _ (classify_reg r Hok) Hs).
   - apply andb_true_iff in Hok. destruct Hok as [Hr Hok]. apply andb_true_iff in Hok. destruct Hok as [Hv Hi].
     unfold p_operand. rewrite (classify_reg r Hr). unfold kind_of. unfold is_pred. unfold is_vec in Hv.
     rewrite (vec_not_pred _ Hv). unfold is_vec. rewrite Hv.
-    unfold p_reg_ext. simpl guard_piece. cbv iota. rewrite Hi. rewrite (p_shift_safe rest Hs). reflexivity.
+    unfold p_reg_ext. simpl guard_piece. cbv iota. rewrite Hi. rewrite (p_shift_safe fx rest Hs). reflexivity.
   - apply andb_true_iff in Hok. destruct Hok as [Hr Hok]. apply andb_true_iff in Hok. destruct Hok as [Hp Hok].
     apply andb_true_iff in Hok. destruct Hok as [Ha Hm].
     unfold p_operand. rewrite (classify_reg r Hr). unfold kind_of. rewrite Hp.
@@ -84,41 +84,41 @@ Proof.
     { unfold den_wreg. destruct (w_arr r); [discriminate|reflexivity]. }
     unfold p_reg_ext. simpl guard_piece. cbv iota. rewrite Hsh.
     repeat (apply orb_true_iff in Hm; destruct Hm as [Hm|Hm];
-            [apply Ascii.eqb_eq in Hm; subst m; simpl; rewrite (p_shift_safe rest Hs); reflexivity|]).
+            [apply Ascii.eqb_eq in Hm; subst m; simpl; rewrite (p_shift_safe fx rest Hs); reflexivity|]).
     discriminate.
   - pose proof (sp_facts w Hok) as F. unfold sp_fact in F. apply andb_true_iff in F. destruct F as [F _].
-    apply wcls_eqb_eq in F. apply (op_regword _ _ _ _ _ F Hs).
+    apply wcls_eqb_eq in F. apply (op_regword fx _ _ _ _ _ F Hs).
   - pose proof (zr_facts w Hok) as F. unfold zr_fact in F. apply andb_true_iff in F. destruct F as [F _].
-    apply wcls_eqb_eq in F. apply (op_regword _ _ _ _ _ F Hs).
+    apply wcls_eqb_eq in F. apply (op_regword fx _ _ _ _ _ F Hs).
 Qed.
 
 (* ---------------------------------------------------------------- integer immediates, identifiers, condition codes *)
-Lemma op_int : forall h n first rest, num_okb n = true -> safe rest ->
-  p_operand first (num_toks h n ++ rest)%list = OpGot [OImmInt (num_value n)] rest.
+Lemma op_int : forall fx h n first rest, num_okb n = true -> safe fx rest ->
+  p_operand fx first (num_toks h n ++ rest)%list = OpGot [OImmInt (num_value n)] rest.
 Proof.
-  intros h n first rest Hn Hs. destruct h; unfold num_toks, hash_toks; simpl app; unfold p_operand;
-    rewrite (numeral_roundtrip n Hn), (arith_safe rest Hs); reflexivity.
+  intros fx h n first rest Hn Hs. destruct h; unfold num_toks, hash_toks; simpl app; unfold p_operand;
+    rewrite (numeral_roundtrip n Hn), (arith_safe fx rest Hs); reflexivity.
 Qed.
 
 Lemma plain_ident_classify : forall w, plain_ident w = true -> classify w = CIdent.
 Proof. intros w H. unfold plain_ident in H. destruct (classify w); try discriminate. reflexivity. Qed.
 
-Lemma op_ident : forall h w first rest, plain_ident w = true -> (first = true -> prefetch_word w = false) -> safe rest ->
-  p_operand first (hash_toks h ++ TW w :: rest)%list = OpGot [OIdent w] rest.
+Lemma op_ident : forall fx h w first rest, plain_ident w = true -> (first = true -> prefetch_word w = false) -> safe fx rest ->
+  p_operand fx first (hash_toks h ++ TW w :: rest)%list = OpGot [OIdent w] rest.
 Proof.
-  intros h w first rest Hw Hf Hs. destruct h; unfold hash_toks; simpl app; unfold p_operand;
-    rewrite (plain_ident_classify w Hw), (arith_safe rest Hs); [reflexivity|].
+  intros fx h w first rest Hw Hf Hs. destruct h; unfold hash_toks; simpl app; unfold p_operand;
+    rewrite (plain_ident_classify w Hw), (arith_safe fx rest Hs); [reflexivity|].
   assert (E : andb first (prefetch_word w) = false).
   { destruct first; [rewrite (Hf eq_refl)|]; reflexivity. }
   rewrite E. inversion Hs; subst; rewrite ?andb_false_r; reflexivity.
 Qed.
 
-Lemma op_cond : forall w rest, mem_str w cond_words = true -> safe rest ->
-  p_operand false (TW w :: rest) = OpGot [OCond (upper w)] rest.
+Lemma op_cond : forall fx w rest, mem_str w cond_words = true -> safe fx rest ->
+  p_operand fx false (TW w :: rest) = OpGot [OCond (upper w)] rest.
 Proof.
-  intros w rest Hw Hs. pose proof (cond_facts w Hw) as F. unfold cond_fact in F.
+  intros fx w rest Hw Hs. pose proof (cond_facts w Hw) as F. unfold cond_fact in F.
   apply andb_true_iff in F. destruct F as [F _]. apply wcls_eqb_eq in F.
-  unfold p_operand. rewrite F, (arith_safe rest Hs). reflexivity.
+  unfold p_operand. rewrite F, (arith_safe fx rest Hs). reflexivity.
 Qed.
 
 (* ---------------------------------------------------------------- register lists and ranges *)
@@ -159,19 +159,19 @@ Proof.
   destruct l as [|y l']; [simpl; lia|]. simpl sep_by. simpl length in *. lia.
 Qed.
 
-Lemma list_index_ok : forall i rest, idx_okb i = true -> safe rest ->
+Lemma list_index_ok : forall fx i rest, idx_okb i = true -> safe fx rest ->
   list_index (idx_toks i ++ rest)%list = Some (den_idx i, rest).
 Proof.
-  intros i rest Hi Hs. destruct i as [d|]; simpl in *.
+  intros fx i rest Hi Hs. destruct i as [d|]; simpl in *.
   - rewrite Hi. reflexivity.
   - inversion Hs; subst; reflexivity.
 Qed.
 
-Lemma op_list : forall els i first rest,
-  nonempty_l els = true -> forallb elem_okb els = true -> idx_okb i = true -> safe rest ->
-  p_operand first (toks_wop (WList els i) ++ rest)%list = OpGot (den_wop (WList els i)) rest.
+Lemma op_list : forall fx els i first rest,
+  nonempty_l els = true -> forallb elem_okb els = true -> idx_okb i = true -> safe fx rest ->
+  p_operand fx first (toks_wop (WList els i) ++ rest)%list = OpGot (den_wop (WList els i)) rest.
 Proof.
-  intros els i first rest Hne Hok Hi Hs.
+  intros fx els i first rest Hne Hok Hi Hs.
   assert (Hne' : els <> []) by (destruct els; [discriminate|congruence]).
   simpl toks_wop. fold (elem_toks els).
   change ((TP "{" :: elem_toks els ++ TP "}" :: idx_toks i) ++ rest)%list
@@ -187,19 +187,19 @@ Proof.
       pose proof (sep_by_length (TP ",") (map (fun e => TW (reg_word e)) els)) as L. rewrite map_length in L. lia. }
     destruct els as [|e els']; [congruence|].
     destruct els' as [|e2 els'']; unfold elem_toks in *; simpl map in *; simpl sep_by in *; simpl app in *;
-      rewrite P, (list_index_ok i rest Hi Hs); reflexivity. }
-  rewrite E, (p_shift_safe rest Hs). simpl den_wop. rewrite !map_map. reflexivity.
+      rewrite P, (list_index_ok fx i rest Hi Hs); reflexivity. }
+  rewrite E, (p_shift_safe fx rest Hs). simpl den_wop. rewrite !map_map. reflexivity.
 Qed.
 
-Lemma op_range : forall a b i first rest,
-  elem_okb a = true -> elem_okb b = true -> idx_okb i = true -> safe rest ->
-  p_operand first (toks_wop (WRange a b i) ++ rest)%list = OpGot (den_wop (WRange a b i)) rest.
+Lemma op_range : forall fx a b i first rest,
+  elem_okb a = true -> elem_okb b = true -> idx_okb i = true -> safe fx rest ->
+  p_operand fx first (toks_wop (WRange a b i) ++ rest)%list = OpGot (den_wop (WRange a b i)) rest.
 Proof.
-  intros a b i first rest Ha Hb Hi Hs. simpl toks_wop. simpl app. unfold p_operand, p_reglist.
-  rewrite (list_elem_ok a Ha), (list_elem_ok b Hb), (list_index_ok i rest Hi Hs).
+  intros fx a b i first rest Ha Hb Hi Hs. simpl toks_wop. simpl app. unfold p_operand, p_reglist.
+  rewrite (list_elem_ok a Ha), (list_elem_ok b Hb), (list_index_ok fx i rest Hi Hs).
   assert (Ra : wreg_okb a = true) by (unfold elem_okb in Ha; apply andb_true_iff in Ha; tauto).
   assert (Rb : wreg_okb b = true) by (unfold elem_okb in Hb; apply andb_true_iff in Hb; tauto).
-  rewrite (reg_num_val a Ra), (reg_num_val b Rb), (p_shift_safe rest Hs). simpl den_wop. rewrite !map_map. reflexivity.
+  rewrite (reg_num_val a Ra), (reg_num_val b Rb), (p_shift_safe fx rest Hs). simpl den_wop. rewrite !map_map. reflexivity.
 Qed.
 
 (* ---------------------------------------------------------------- memory operands *)
@@ -241,16 +241,16 @@ Proof.
 Qed.
 
 Definition idx_word (p : ascii) (n : nat) : string := String p (nat_str n).
-Lemma idx_facts : forall (p : ascii) (n : nat), memb p ["x";"w";"X";"W"]%char = true -> Nat.ltb n 32 = true ->
-  classify (idx_word p n) = CReg (plain (s1 (low p)) (nat_str n)) KScalar /\ has_shift_prefix (idx_word p n) = false.
+Lemma idx_facts : forall fx (p : ascii) (n : nat), memb p ["x";"w";"X";"W"]%char = true -> Nat.ltb n 32 = true ->
+  classify (idx_word p n) = CReg (plain (s1 (low p)) (nat_str n)) KScalar /\ has_shift_prefix fx (idx_word p n) = false.
 Proof.
-  intros p n Hp Hn.
+  intros fx p n Hp Hn.
   assert (Hr : wreg_okb (mkwreg p n None) = true).
   { unfold wreg_okb. cbn [w_num w_pre w_arr]. rewrite Hn.
     repeat (apply orb_true_iff in Hp; destruct Hp as [Hp|Hp]; [apply Ascii.eqb_eq in Hp; subst p; reflexivity|]). discriminate. }
   assert (E : reg_word (mkwreg p n None) = idx_word p n).
   { unfold reg_word, idx_word. cbn [w_num w_pre w_arr]. rewrite app_nil_r_str. reflexivity. }
-  pose proof (classify_reg _ Hr) as C. pose proof (reg_no_shift _ Hr) as S. rewrite E in C, S. split; [|exact S].
+  pose proof (classify_reg _ Hr) as C. pose proof (reg_no_shift fx _ Hr) as S. rewrite E in C, S. split; [|exact S].
   rewrite C. f_equal.
   repeat (apply orb_true_iff in Hp; destruct Hp as [Hp|Hp]; [apply Ascii.eqb_eq in Hp; subst p; reflexivity|]). discriminate.
 Qed.
@@ -264,16 +264,16 @@ Proof.
   induction l as [|x l IH]; intros H; [reflexivity|]. simpl. rewrite (H x (or_introl eq_refl)).
   apply IH. intros y Hy. apply H. right. exact Hy.
 Qed.
-Lemma numhead_no_shift : forall w, head_is (fun c => orb (is_digit c) (ceq c "-")) w = true -> has_shift_prefix w = false.
+Lemma numhead_no_shift : forall fx w, head_is (fun c => orb (is_digit c) (ceq c "-")) w = true -> has_shift_prefix fx w = false.
 Proof.
-  intros [|c r] H; [discriminate|]. simpl in H. pose proof (numhead_low c H) as F.
+  intros fx w H. apply hsp_mono. revert H. destruct w as [|c r]; intros H; [discriminate|]. simpl in H. pose proof (numhead_low c H) as F.
   repeat (apply orb_false_iff in F; destruct F as [F ?]).
   assert (L : lower (String c r) = String (low c) (lower r)) by reflexivity.
   assert (P : forall k op' , ceq k (low c) = false -> prefix_of (String k op') (lower (String c r)) = false).
   { intros k op' E. rewrite L. change (prefix_of (String k op') (String (low c) (lower r)))
       with (andb (ceq k (low c)) (prefix_of op' (lower r))). rewrite E. reflexivity. }
   unfold has_shift_prefix, shift_split.
-  rewrite (filter_nil (fun op => prefix_of op (lower (String c r))) shift_ops).
+  rewrite (filter_nil (fun op => prefix_of op (lower (String c r))) (shift_ops fx_pre)).
   - destruct (String.eqb (lower (String c r)) "mul") eqn:E; [|reflexivity].
     apply String.eqb_eq in E. rewrite L in E. injection E as E1 _. rewrite E1 in H0. discriminate.
   - intros op Hin. unfold shift_ops in Hin. simpl in Hin.
@@ -287,9 +287,9 @@ Proof.
   destruct neg; [reflexivity|]. destruct hex; [reflexivity|].
   destruct (dec_parts d H) as (_ & _ & Hh & _). exact Hh.
 Qed.
-Lemma num_no_shift : forall n, num_okb n = true ->
-  shift_split (num_word n) = None /\ String.eqb (lower (num_word n)) "mul" = false.
-Proof. intros n H. apply hsp_false. apply numhead_no_shift. apply num_word_head. exact H. Qed.
+Lemma num_no_shift : forall fx n, num_okb n = true ->
+  shift_split fx (num_word n) = None /\ String.eqb (lower (num_word n)) "mul" = false.
+Proof. intros fx n H. apply hsp_false. apply numhead_no_shift. apply num_word_head. exact H. Qed.
 
 Definition tail_toks (t : wmemtail) : list tok :=
   match t with
@@ -301,12 +301,12 @@ Definition tail_toks (t : wmemtail) : list tok :=
                    | Some (mkwext op am) => TP "," :: TW op :: match am with None => [] | Some (h, k) => num_toks h k end
                    end
   end.
-Definition tail_okb (t : wmemtail) : bool :=
+Definition tail_okb (fx : fixes) (t : wmemtail) : bool :=
   match t with
   | MTNone => true
   | MTOff _ n => num_okb n
   | MTIdx p n e => andb (memb p ["x";"w";"X";"W"]%char)
-                        (andb (Nat.ltb n 32) (match e with None => true | Some e' => wext_okb false e' end))
+                        (andb (Nat.ltb n 32) (match e with None => true | Some e' => wext_okb fx e' end))
   end.
 Definition mem_off (t : wmemtail) : moff := match t with MTOff _ n => MOffImm (num_value n) | _ => MOffNone end.
 Definition mem_ix (t : wmemtail) : option mindex :=
@@ -332,28 +332,28 @@ Qed.
 
 Local Arguments prefix_of : simpl never.
 Local Arguments mem_str : simpl never.
-Lemma p_mem_tail : forall b t cl, wbase_okb b = true -> tail_okb t = true ->
-  p_mem (TW (base_word b) :: tail_toks t ++ TP "]" :: cl)%list =
+Lemma p_mem_tail : forall fx b t cl, wbase_okb b = true -> tail_okb fx t = true ->
+  p_mem fx (TW (base_word b) :: tail_toks t ++ TP "]" :: cl)%list =
   p_mem_close (mem_off t) "x" (den_base_name b) (mem_ix t) (mem_scale t) (TP "]" :: cl).
 Proof.
-  intros b t cl Hb Ht. destruct (base_facts b Hb) as (rb & kb & Cb & Pb & Nb).
+  intros fx b t cl Hb Ht. destruct (base_facts b Hb) as (rb & kb & Cb & Pb & Nb).
   unfold p_mem. rewrite Cb.
   destruct t as [|h n|p n e]; simpl tail_toks; simpl app.
   - (* [base] *)
     simpl. rewrite Pb, Nb. reflexivity.
   - (* [base, #imm] *)
-    simpl in Ht. destruct (num_no_shift n Ht) as [S1 S2].
+    simpl in Ht. destruct (num_no_shift fx n Ht) as [S1 S2].
     destruct h; unfold num_toks, hash_toks; simpl app; simpl.
     + rewrite (numeral_roundtrip n Ht), Pb, Nb. reflexivity.
     + rewrite S2, S1, (numeral_roundtrip n Ht), Pb, Nb. reflexivity.
   - (* [base, xN ...] *)
     unfold tail_okb in Ht. apply andb_true_iff in Ht. destruct Ht as [Hp Ht]. apply andb_true_iff in Ht. destruct Ht as [Hn He].
-    destruct (idx_facts p n Hp Hn) as [Ci Si]. destruct (hsp_false _ Si) as [S1 S2].
+    destruct (idx_facts fx p n Hp Hn) as [Ci Si]. destruct (hsp_false fx _ Si) as [S1 S2].
     destruct e as [[op am]|].
     + unfold wext_okb in He. apply andb_true_iff in He. destruct He as [Hop Ham].
-      pose proof (ext_facts op Hop) as F. unfold ext_fact in F. apply andb_true_iff in F. destruct F as [F1 F2].
+      pose proof (ext_facts fx op Hop) as F. unfold ext_fact in F. apply andb_true_iff in F. destruct F as [F1 F2].
       apply negb_true_iff in F2.
-      destruct (shift_split op) as [[o tl]|] eqn:Eo; [|discriminate]. destruct tl; [|discriminate].
+      destruct (shift_split fx op) as [[o tl]|] eqn:Eo; [|discriminate]. destruct tl; [|discriminate].
       apply andb_true_iff in F1. destruct F1 as [F1 F3]. apply String.eqb_eq in F1. subst o.
       destruct am as [[h k]|].
       * apply andb_true_iff in Ham. destruct Ham as [Hk Ham]. apply andb_true_iff in Ham. destruct Ham as [Hneg Hhex].
@@ -367,12 +367,12 @@ Proof.
     + simpl. rewrite S2, S1, Ci. simpl. rewrite Pb, Nb. reflexivity.
 Qed.
 
-Lemma op_mem : forall b t c first rest,
-  wbase_okb b = true -> tail_okb t = true -> close_okb c = true -> ends rest ->
-  p_operand first (toks_wop (WMem b t c) ++ rest)%list = OpGot (den_wop (WMem b t c)) rest.
+Lemma op_mem : forall fx b t c first rest,
+  wbase_okb b = true -> tail_okb fx t = true -> close_okb c = true -> ends rest ->
+  p_operand fx first (toks_wop (WMem b t c) ++ rest)%list = OpGot (den_wop (WMem b t c)) rest.
 Proof.
-  intros b t c first rest Hb Ht Hc He. rewrite toks_mem_shape. unfold p_operand.
-  rewrite (p_mem_tail b t _ Hb Ht), (p_mem_close_ok _ _ _ _ _ c rest Hc He).
+  intros fx b t c first rest Hb Ht Hc He. rewrite toks_mem_shape. unfold p_operand.
+  rewrite (p_mem_tail fx b t _ Hb Ht), (p_mem_close_ok _ _ _ _ _ c rest Hc He).
   destruct t as [|h n|p n [[op [[h k]|]]|]]; reflexivity.
 Qed.
 
@@ -501,9 +501,9 @@ Proof.
   - destruct suf as [c|]; [|reflexivity]. destruct (Es c Hsuf) as [->| ->]; reflexivity.
 Qed.
 
-Lemma op_flt : forall h f first rest, wfloat_okb f = true -> safe rest ->
-  p_operand first (toks_wop (WFlt h f) ++ rest)%list = OpGot (den_wop (WFlt h f)) rest.
+Lemma op_flt : forall fx h f first rest, wfloat_okb f = true -> safe fx rest ->
+  p_operand fx first (toks_wop (WFlt h f) ++ rest)%list = OpGot (den_wop (WFlt h f)) rest.
 Proof.
-  intros h f first rest Hf Hs. destruct h; simpl toks_wop; unfold hash_toks; simpl app; unfold p_operand;
-    rewrite (classify_float f Hf), (arith_safe rest Hs), (fpf_safe rest Hs); reflexivity.
+  intros fx h f first rest Hf Hs. destruct h; simpl toks_wop; unfold hash_toks; simpl app; unfold p_operand;
+    rewrite (classify_float f Hf), (arith_safe fx rest Hs), (fpf_safe fx rest Hs); reflexivity.
 Qed.
